@@ -364,7 +364,7 @@ def c04(c):
 
 
 C11_THEOREMS = ["Ctl.hSolve_protocol", "Ctl.rk23Solve_inv", "Ctl.rk4Solve_inv", "Ctl.hNextStep_le_hmax",
-                "Ctl.hIter_budget_irrelevant", "Ctl.startMeter_first_step"]
+                "Ctl.hIter_budget_irrelevant", "Ctl.startMeter_first_step", "BdfCtl.limits_le_hmax"]
 
 
 def c11(c):
@@ -457,7 +457,9 @@ def c19(c):
 
 # ---------------------------------------------------------------------------------------------- C16 (LU)
 C16_THEOREMS = ["LU.c16_shape_errors", "LU.c16_shape_errors_complex", "LU.c16_n1", "LU.c16_n1_complex",
-                "LU.c16_n2_exact_partial", "LU.c16_n2_singular_iff", "LU.lu2_noswap", "LU.lu2_swap", "LU.lu2_singular"]
+                "LU.c16_n2_exact_partial", "LU.c16_n2_singular_iff", "LU.lu2_noswap", "LU.lu2_swap", "LU.lu2_singular",
+                "LUF.c16_general_exact", "LUF.c16_general_exact_n1", "LUF.c16_zero_first_column",
+                "LUF.decomp_solve_spec", "LUF.decompGo_spec", "LUF.step_sys_iff", "LUF.backGo_spec"]
 
 
 def c16(c):
